@@ -189,3 +189,102 @@ Theorem clock_monotone_refuted :
          Preempt2.SvcInv_b s2 = true.
 Proof. exact Preempt2.clock_monotone_refuted. Qed.
 Print Assumptions clock_monotone_refuted.
+
+(* ---- Inversion2 ---- *)
+From CiwV.Inv Require Inversion2.
+
+Theorem run_many_invJ :
+  forall cf : State2.config,
+       Inversion2.inv_scope cf = true ->
+       forall (ds : list State2.draws) (s s' : State2.sim),
+       Inversion2.InvJ cf s ->
+       Codec2.run_many cf s ds = State2.Ok s' -> Inversion2.InvJ cf s'.
+Proof. exact Inversion2.run_many_invJ. Qed.
+Print Assumptions run_many_invJ.
+
+Theorem run_many_noinv :
+  forall cf : State2.config,
+       Inversion2.inv_scope cf = true ->
+       forall (ds : list State2.draws) (s s' : State2.sim),
+       Inversion2.InvJ cf s ->
+       Codec2.run_many cf s ds = State2.Ok s' -> Inversion2.NoInv cf s'.
+Proof. exact Inversion2.run_many_noinv. Qed.
+Print Assumptions run_many_noinv.
+
+Theorem NoInv_means :
+  forall (cf : State2.config) (s : State2.sim),
+       Inversion2.InvJ cf s ->
+       forall (k : nat) (nc : State2.ncfg) (nd : State2.node),
+       List.nth_error (State2.cf_nodes cf) k = Some nc ->
+       List.nth_error (State2.nodes s) k = Some nd ->
+       Inversion2.in_claim nc nd ->
+       (forall (sv : State2.server) (v : BinNums.Z) 
+          (vx : State2.ind) (u : BinNums.Z) (ux : State2.ind),
+        List.In sv (State2.n_servers nd) ->
+        State2.sv_cust sv = Some v ->
+        Engine2.find_ind v (State2.inds s) = Some vx ->
+        List.In u (List.concat (State2.n_queues nd)) ->
+        Engine2.find_ind u (State2.inds s) = Some ux ->
+        State2.i_server ux = None ->
+        BinInt.Z.le (State2.i_prio vx) (State2.i_prio ux)) /\
+       (forall (sv : State2.server) (u : BinNums.Z) (ux : State2.ind),
+        List.In sv (State2.n_servers nd) ->
+        State2.sv_busy sv = false ->
+        List.In u (List.concat (State2.n_queues nd)) ->
+        Engine2.find_ind u (State2.inds s) = Some ux ->
+        State2.i_server ux <> None) /\
+       (forall (kq : nat) (q : list BinNums.Z) (u : BinNums.Z)
+          (ux : State2.ind),
+        List.nth_error (State2.n_queues nd) kq = Some q ->
+        List.In u q ->
+        Engine2.find_ind u (State2.inds s) = Some ux ->
+        State2.i_prio ux = BinInt.Z.of_nat kq /\
+        State2.i_pprio ux = BinInt.Z.of_nat kq) /\
+       List.NoDup (List.map State2.sv_id (State2.n_servers nd)) /\
+       (forall (sv : State2.server) (v : BinNums.Z),
+        List.In sv (State2.n_servers nd) ->
+        State2.sv_cust sv = Some v ->
+        List.In v (List.concat (State2.n_queues nd)) /\
+        (exists vx : State2.ind,
+           Engine2.find_ind v (State2.inds s) = Some vx /\
+           State2.i_server vx = Some (State2.sv_id sv))) /\
+       State2.n_interrupted nd = nil.
+Proof. exact Inversion2.NoInv_means. Qed.
+Print Assumptions NoInv_means.
+
+Theorem invj_b_sound :
+  forall (cf : State2.config) (s : State2.sim),
+       Inversion2.invj_b cf s = true -> Inversion2.InvJ cf s.
+Proof. exact Inversion2.invj_b_sound. Qed.
+Print Assumptions invj_b_sound.
+
+Theorem noinv_refuted_blocked_class_change :
+  exists
+         (cf : State2.config) (s : State2.sim) (ds : list State2.draws) 
+       (s' : State2.sim),
+         Inversion2.inv_scope cf = false /\
+         Inversion2.invj_b cf s = true /\
+         State2.inds s = nil /\
+         Codec2.run_many cf s ds = State2.Ok s' /\ ~ Inversion2.NoInv cf s'.
+Proof. exact Inversion2.noinv_refuted_blocked_class_change. Qed.
+Print Assumptions noinv_refuted_blocked_class_change.
+
+Theorem noinv_refuted_preemptive_schedule :
+  exists
+         (cf : State2.config) (s : State2.sim) (ds : list State2.draws) 
+       (s' : State2.sim),
+         Inversion2.inv_scope cf = false /\
+         State2.inds s = nil /\
+         Codec2.run_many cf s ds = State2.Ok s' /\ Inversion2.Inversion s'.
+Proof. exact Inversion2.noinv_refuted_preemptive_schedule. Qed.
+Print Assumptions noinv_refuted_preemptive_schedule.
+
+Theorem noinv_refuted_overtime :
+  exists
+         (cf : State2.config) (s : State2.sim) (ds : list State2.draws) 
+       (s' : State2.sim),
+         Inversion2.inv_scope cf = false /\
+         State2.inds s = nil /\
+         Codec2.run_many cf s ds = State2.Ok s' /\ Inversion2.Inversion s'.
+Proof. exact Inversion2.noinv_refuted_overtime. Qed.
+Print Assumptions noinv_refuted_overtime.
